@@ -792,10 +792,17 @@ class Reference:
             if l.k == "cmp" and self._ground(l.lhs, env) and self._ground(l.rhs, env) and not self._has_unbound_pattern(l, env):
                 c, d = self.with_defs(lambda: self.compare(l, env))
                 return self._body(lits[:i] + lits[i + 1:], env, g_and(g, d, c), emit)
-        # 2. binding equalities
+        # 2. binding equalities (a variable that a positive atom will bind is left to the atom: the equality is then a
+        #    typed comparison -- float equality is not bit identity, 0.0 = -0.0)
+        atom_vars = set()
+        for l in lits:
+            if l.k == "atom" and not l.neg:
+                atom_vars |= term_vars(l.args)
         for i, l in enumerate(lits):
             if l.k == "cmp" and l.op == "=":
                 for a, b in ((l.lhs, l.rhs), (l.rhs, l.lhs)):
+                    if a.k == "var" and a.name in atom_vars:
+                        continue
                     if a.k == "var" and a.name not in env and b.k == "call" and b.name == "range" and self._ground(b, env):
                         ty = self.vt.get(a.name) or self.type_of(b, self.vt) or "i"
                         vals = self.range_values([self.eval(x, env, ty) for x in b.args], ty)
